@@ -26,6 +26,15 @@ What is compared (the reading of "coincide"):
 * finders: the returned object describes a complete binary tree over the N inputs
   (ref.check_tree_struct) and ``list(tree.traverse())`` (its default = surface order)
   lists every internal node exactly once, children before parents.
+* histories: the estimates are a function of the tree AS IT IS NOW.  The whole sweep above is
+  run on a tree object (stage 0, possibly with only some of the orders), then the object is
+  changed by 1-3 small ``subtree_reconfigure`` steps (subtree_size 3-6, maxiter 1-2, select
+  min / random / max so that deep subtrees are touched and the root node usually survives),
+  in place or as a non-inplace copy; after every step the same sweep, with the same settings,
+  is run on the modified tree and - after a copy - on the source object again.  The exact
+  figures are those of the independent model on the children map the object has at that moment
+  (ct.children_of + ref.check_tree_struct + ref.children_to_ssa).  A step counts as "changed"
+  only if the set of internal nodes differs (an ssa path can differ by child order alone).
 """
 
 import traceback
@@ -44,7 +53,10 @@ RULE = (
     "greedy-compressed / greedy-span, GreedyCompressed / GreedySpan with random hyper-parameters, "
     "HyperCompressedOptimizer over greedy-compressed / greedy-span / greedy-span-max / kahypar-agglom, "
     "ContractionTreeCompressed.from_path (ssa, linear, truncated+autocomplete), windowed_reconfigure, "
-    "compressed simulated_anneal.  distinct = distinct (network, tree, tree class, order, compress_late); "
+    "compressed simulated_anneal; histories: sweep, then 1-3 subtree_reconfigure steps (in place / copy, size 3-6, "
+    "maxiter 1-2, select min/random/max, search bfs/dfs/random, minimize flops/size/write/combo) on the same "
+    "ContractionTree / ContractionTreeCompressed object with the sweep repeated on the modified tree and on the "
+    "source of every copy.  distinct = distinct (network, tree, tree class, order, compress_late); "
     "non-trivial = >= 4 tensors and at least one bond made of >= 2 indices arises in that run"
 )
 ASSUMPTIONS = [
@@ -68,6 +80,8 @@ REQUIRED_MONITORS = [
     "boundary_chi",
     "monotone_in_chi",
     "compressed_finder_tree",
+    "history_rechecks",
+    "history_tree_changed",
 ]
 SHARD_TIMEOUT = {"quick": 400, "thorough": 3600}
 
@@ -263,9 +277,10 @@ def make_order(kind, seed):
 FIELDS = ("flops", "max_size", "write")
 
 
-def stats_case(rep, case, register=True):
+def stats_case(rep, case, register=True, tree=None):
     """Run every (order, compress_late, chi) on one (network, tree).  Returns a list of
-    (kind, detail dict, message)."""
+    (kind, detail dict, message).  ``tree``: a live tree object whose present structure is
+    case["ssa"] (histories); built from the case when not given."""
     net = gen.Net.from_json(case["net"])
     pristine = gen.Net.from_json(case["net"])  # never handed to cotengra
     ssa = [tuple(s) for s in case["ssa"]]
@@ -284,11 +299,12 @@ def stats_case(rep, case, register=True):
     if lonely_indices(pristine) or pristine.has_repeat():
         rep.count("skipped", "not ordinary")  # outside the statement (see ASSUMPTIONS)
         return out
-    try:
-        tree = build_tree(net, ssa, case["cls"])
-    except Exception as e:
-        rep.inconclusive_case(f"could not build the tree: {e!r}")
-        return out
+    if tree is None:
+        try:
+            tree = build_tree(net, ssa, case["cls"])
+        except Exception as e:
+            rep.inconclusive_case(f"could not build the tree: {e!r}")
+            return out
     try:
         ex = tree.contract_stats()
         if ex["flops"] != want["flops"] or ex["write"] + sum(insz) != want["write"]:
@@ -594,9 +610,9 @@ def run_finder_case(rep, case, follow_up=True):
 # --------------------------------------------------------------------------- #
 
 
-def gen_stats_case(rng, cs, tier):
+def gen_stats_case(rng, cs, tier, small=True):
     r = rng.random()
-    if r < 0.08:
+    if small and r < 0.08:
         net = gen_net(rng, 2, 3)
     else:
         net = gen_net(rng, 4, budget(tier, 12, 14))
@@ -625,7 +641,150 @@ def gen_stats_case(rng, cs, tier):
     }
 
 
+# --------------------------------------------------------------------------- #
+#              histories: the estimates after the tree has changed             #
+# --------------------------------------------------------------------------- #
+
+HIST_MINIMIZE = ("flops", "size", "write", "combo")  # objectives subtree_reconfigure can optimise for
+
+
+def gen_history_case(rng, cs, tier):
+    case = gen_stats_case(rng, cs, tier, small=False)
+    case["what"] = "history"
+    case["source"] = "history:" + case["source"]
+    orders = list(ORDERS) if rng.random() < 0.35 else ["dfs", "surface_order"]
+    case["orders"] = orders
+    # stage 0 may ask for some of the orders only: what a copy computes first is then new to its source
+    case["first_orders"] = list(orders) if rng.random() < 0.6 else sorted(rng.sample(orders, rng.randint(1, len(orders) - 1)))
+    steps = []
+    for _ in range(rng.randint(1, 3)):
+        steps.append({
+            "inplace": rng.random() < 0.65,
+            "subtree_size": rng.choice([3, 3, 4, 4, 5, 6]),
+            "maxiter": rng.choice([1, 1, 1, 2]),
+            "select": rng.choice(["min", "random", "random", "max"]),
+            "subtree_search": rng.choice(["bfs", "dfs", "random"]),
+            "minimize": rng.choice(HIST_MINIMIZE),
+            "seed": rng.randrange(10**6),
+        })
+    case["steps"] = steps
+    return case
+
+
+def present_ssa(tree, N):
+    """-> (ssa path of the structure the object has now, {node: {left, right}}) or (None, message)"""
+    children = ct.children_of(tree)
+    msg = ref.check_tree_struct(N, children)
+    if msg:
+        return None, msg
+    return [tuple(p) for p in ref.children_to_ssa(N, children)], {p: frozenset(lr) for p, lr in children.items()}
+
+
+def history_case(rep, case, register=True):
+    """-> list of (kind, detail, message); detail carries "stage" (0 = before any change) and "on"."""
+    net = gen.Net.from_json(case["net"])
+    pristine = gen.Net.from_json(case["net"])
+    N = pristine.N
+    out = []
+    if lonely_indices(pristine) or pristine.has_repeat():
+        rep.count("skipped", "not ordinary")
+        return out
+    try:
+        tree = build_tree(net, [tuple(s) for s in case["ssa"]], case["cls"])
+    except Exception as e:
+        rep.inconclusive_case(f"could not build the tree: {e!r}")
+        return out
+
+    def sweep(t, ssa_now, orders, stage, on, reg):
+        sub = {k: case[k] for k in ("net", "cls", "order_seed", "source")}
+        sub["ssa"] = ssa_now
+        sub["orders"] = tuple(orders)
+        n0 = rep.monitors["uncapped_flops_exact"]
+        for kind, det, msg in stats_case(rep, sub, register=reg, tree=t):
+            det = dict(det, stage=stage, on=on, ssa_at_stage=[list(p) for p in ssa_now])
+            out.append((kind, det, f"[history: stage {stage}, {on}] {msg}"))
+        return rep.monitors["uncapped_flops_exact"] > n0  # did the oracle really look at this tree?
+
+    ssa0, nodes0 = present_ssa(tree, N)
+    if ssa0 is None:
+        rep.inconclusive_case(f"freshly built tree is not a complete tree: {nodes0}")
+        return out
+    if not sweep(tree, ssa0, case["first_orders"], 0, "fresh", register):
+        return out
+    cur, cur_ssa, cur_nodes = tree, ssa0, nodes0
+    for j, st in enumerate(case["steps"], 1):
+        try:
+            with time_limit(OP_LIMIT):
+                new = cur.subtree_reconfigure(
+                    subtree_size=st["subtree_size"], subtree_search=st["subtree_search"], select=st["select"],
+                    maxiter=st["maxiter"], seed=st["seed"], minimize=st["minimize"], inplace=st["inplace"],
+                )
+        except OpTimeout as e:
+            rep.inconclusive_case(f"history step {j}: {e}")
+            break
+        except Exception as e:
+            rep.count("excluded", f"history: subtree_reconfigure raised {type(e).__name__}")
+            break
+        if st["inplace"] and new is not cur:
+            rep.inconclusive_case("subtree_reconfigure_(inplace) returned another object: C04's domain")
+            break
+        new_ssa, new_nodes = present_ssa(new, N)
+        if new_ssa is None:
+            rep.inconclusive_case(f"tree after subtree_reconfigure is not a complete tree ({new_nodes}): C04's domain")
+            break
+        changed = set(new_nodes) != set(cur_nodes)
+        rep.count("history_steps", f"{'inplace' if st['inplace'] else 'copy'}:{'changed' if changed else 'same'}")
+        if not sweep(new, new_ssa, case["orders"], j, "modified in place" if st["inplace"] else "modified copy", register):
+            break
+        rep.mon("history_rechecks")
+        if changed:
+            rep.mon("history_tree_changed")
+            if new_nodes[frozenset(range(N))] == cur_nodes[frozenset(range(N))]:
+                rep.mon("history_tree_changed_below_root")  # the change is inside a child of the root
+        if not st["inplace"]:
+            # the source object must still be described by ITS structure
+            src_ssa, src_nodes = present_ssa(cur, N)
+            if src_ssa is None or src_nodes != cur_nodes:
+                rep.inconclusive_case("non-inplace subtree_reconfigure changed its source: C04's domain")
+                break
+            if sweep(cur, cur_ssa, case["orders"], j, "source of the copy", False):
+                rep.mon("history_rechecks")
+                rep.mon("history_rechecks_of_copy_source")
+        cur, cur_ssa, cur_nodes = new, new_ssa, new_nodes
+    return out
+
+
+def run_history_case(rep, case):
+    res = history_case(rep, case)
+    net = gen.Net.from_json(case["net"])
+    rep.count("history_cls", case["cls"])
+    seen = set()
+    for kind, det, msg in res:
+        # the first witness of each kind: the stages / settings that follow repeat it (replay reruns them all)
+        if kind in seen:
+            continue
+        seen.add(kind)
+        w = dict(case)
+        w.update(det)
+        w["what"] = "history"
+        rep.violation(kind, w, f"{net.eq()} sizes={net.size_dict} ssa={case['ssa']} cls={case['cls']} steps={case['steps']} "
+                               f"first_orders={case['first_orders']} order={det['order']} compress_late={det['compress_late']}: {msg}")
+    return not res
+
+
 def run_shard(rep, tier, seed, shard, nshards):
+    _run_main(rep, tier, seed, shard, nshards)
+    # histories: their own (small) budget and seed stream, after the main workload
+    dl3 = Deadline(budget(tier, 7, 80))
+    for k in range(budget(tier, 300, 5000)):
+        if dl3.expired():
+            break
+        cs = f"{seed}/C20/history/{shard}/{k}"
+        rng = rng_for(cs)
+        run_history_case(rep, gen_history_case(rng, cs, tier))
+
+
+def _run_main(rep, tier, seed, shard, nshards):
     dl = Deadline(budget(tier, 18, 200))
     for k in range(budget(tier, 700, 12000)):
         if dl.expired():
@@ -688,6 +847,16 @@ def replay(rep, v):
     w = v["witness"]
     if w.get("what") == "finder":
         run_finder_case(rep, w, follow_up=False)
+        return
+    if w.get("what") == "history":
+        case = {k: w[k] for k in ("net", "ssa", "cls", "order_seed", "orders", "first_orders", "steps")}
+        case["source"] = w.get("source", "replay")
+        # the whole history again, from a fresh tree object
+        for kind, det, msg in history_case(rep, case, register=False):
+            ww = dict(case)
+            ww.update(det)
+            ww["what"] = "history"
+            rep.violation(kind, ww, f"order={det['order']} compress_late={det['compress_late']}: {msg}")
         return
     case = {k: w[k] for k in ("net", "ssa", "cls", "order_seed") if k in w}
     case["source"] = w.get("source", "replay")
